@@ -23,6 +23,18 @@ CHECKS = {
             "Enumerates 20 corruption operators at every node of valid messages, all 255 substitutions at every byte of short messages, every truncation, nesting bombs to 20000 levels and random bytes, under chunkings and 4 prior histories per role; the oracle accepts only a message list or ProtocolError, then requires CLOSED, refusal of further input and a strictly decodable notice/unbind.", "5/C05"),
     "C06": ("fault_enumeration", "conservation invariant against an independent TLV framer after every receive call",
             "Streams of complete top-level units with valid, overrunning, truncated, control-damaged and random interiors; after every returning receive call the number of messages returned must equal the number of complete units delivered.", "5/C06"),
+    "C08": ("exploration", "online trace checker: real session stepped against an executable model of the documented state machine + CLOSED-finality temporal monitor",
+            "Random joint client/server histories (incl. calls after failures and after closure, crafted deliveries) plus every call sequence of length <= 4 (quick) / <= 5 (thorough) over a 14-letter alphabet per role; each call's outcome class, state and emitted message are compared with the model of DESIGN Appendix B.", "5/C08"),
+    "C09": ("exploration", "online trace checker: id monotonicity + in-progress set against the model, responses fabricated by the reference encoder",
+            "Client-only histories with every response kind x id class, batched and chunked; ids checked against the strict decode of the emitted bytes.", "5/C09"),
+    "C10": ("exploration", "trace checker in drain mode (per-call byte delta) and pending mode (offline decode of the drained stream)",
+            "Histories biased to refusals in every state and for every response method; a refused call must raise LDAPError and add no bytes; the final drained stream must decode to exactly the accepted calls.", "5/C10"),
+    "C11": ("exploration", "two-session simulator with byte pipes; offline log checker (exactly-once/in-order, state and probe agreement at quiescence)",
+            "Seeded scheduler interleaves legal calls, partial moves and deliveries, noise calls and terminations; evidence counts distinct interleaving signatures, mid-header/mid-body deliveries and pipelining depth.", "5/C11"),
+    "C12": ("exploration", "conservation over drains against a fully-drained twin session + strict decode of the concatenated drains",
+            "Sends interleaved with data_to_send(a) over all amount classes; drain lengths, byte-exact concatenation, decoded message sequence and state are compared with a twin.", "5/C12"),
+    "C19": ("exploration", "isolated vs interleaved per-call transcripts (incl. one thread per session), direct registration-scope checks",
+            "Sequences with registrations of harness-defined custom control/filter/credential types on every subset of sessions are run alone and interleaved under >= 23 schedules each; any cross-session influence changes a transcript.", "5/C19"),
 }
 
 NOT_YET = {}
